@@ -6,7 +6,7 @@
      - the STORED link attributes exactly as the code keeps them:
          f_pr   _parentRule        (rules, declaration blocks, selector lists, media lists)
          f_pss  _parentStyleSheet  (rules)
-         f_par  _parent / parent   (Property, Selector, PropertyValue, Value)
+         f_par  _parent / parent   (Property, Selector, PropertyValue, Value; rules: CSSRule._parent)
          f_own  _ownerRule         (style sheets)
        they are plain data, independent of the shape of the object graph, so they can be wrong;
      - kids: the objects it actually CONTAINS, by role, in list order
@@ -138,8 +138,8 @@ Definition site_kinds (s : site) : kind * kind :=
 (* the attribute writes of the site, on the element c that is being attached to p *)
 Definition site_writes (s : site) (p : id) (o : obj) : obj :=
   match s with
-  | SSheetInsert => set_pr None (set_pss (Some p) o)     (* rule._parentStyleSheet = self; rule._parentRule = None *)
-  | SContInsert => set_pss None (set_pr (Some p) o)      (* rule._parentRule = self; rule._parentStyleSheet = None *)
+  | SSheetInsert => set_pss (Some p) (set_par None (set_pr None o))      (* rule._parentRule = None; rule._parent = None; rule._parentStyleSheet = self *)
+  | SContInsert => set_pss None (set_par (Some p) (set_pr (Some p) o))   (* rule._parentRule = self; rule._parent = self; rule._parentStyleSheet = None *)
   | SSetStyle | SSetSelList | SSetMedia => set_pr (Some p) o     (* x._parentRule = self *)
   | SSetImported => set_own (Some p) o                   (* self._ownerRule = ownerRule *)
   | SDeclAppend | SSelAppend | SPropPV | SPVItem | SValItem => set_par (Some p) o    (* x.parent = self *)
@@ -162,9 +162,9 @@ Definition attach (s : site) (h : heap) (p c : id) (idx : nat) : heap :=
 (* ---- detach sites ------------------------------------------------------------------------ *)
 Inductive dsite :=
 | DSheetDelete    (* cssstylesheet.py deleteRule l.500-501: rule._parentStyleSheet = None; del _cssRules[i] *)
-| DContDelete.    (* cssrule.py deleteRule l.215-219: _cssRules[i]._parentRule = None; del _cssRules[i] *)
+| DContDelete.    (* cssrule.py deleteRule l.216-221: _cssRules[i]._parentRule = None; ._parent = None; del _cssRules[i] *)
 Definition dsite_role d := match d with DSheetDelete => RTop | DContDelete => RSub end.
-Definition dsite_writes d := match d with DSheetDelete => set_pss None | DContDelete => set_pr None end.
+Definition dsite_writes d := match d with DSheetDelete => set_pss None | DContDelete => fun o => set_par None (set_pr None o) end.
 
 Definition removed (r : role) (h : heap) (p : id) (i : nat) : option id :=
   match get h p with
@@ -189,9 +189,10 @@ Definition drop (r : role) (h : heap) (p : id) (i : nat) : heap :=
   | None => h
   end.
 
-(* constructors: a new object with the link attributes its __init__ stores (all None by default) *)
+(* constructors: a new object with the link attributes its __init__ stores (all None by default);
+   CSSRule.__init__ (cssrule.py l.70-75) stores _parent = parentRule *)
 Definition alloc (h : heap) (k : kind) (pr pss par own : option id) : heap :=
-  h ++ [mkObj k pr pss par own []].
+  h ++ [mkObj k pr pss (if kind_eqb k KRule then pr else par) own []].
 
 (* post settings of CSSStyleSheet.insertRule reached without an insertion (an @charset merged into
    the existing one, a duplicate @namespace): l.786-788 write the attributes of a rule that stays outside *)
@@ -238,8 +239,7 @@ Definition property_ctor (h : heap) (par : option id) : heap :=
 Definition is_rule (k : kind) : bool := kind_eqb k KRule.
 Definition acc_parentRule (o : obj) : option id := f_pr o.                 (* cssrule.py l.122, selectorlist.py l.230, ... *)
 Definition acc_ownerRule (o : obj) : option id := f_own o.                 (* cssstylesheet.py l.795 *)
-Definition acc_parent (o : obj) : option id :=                             (* cssrule.py l.119: the parent rule *)
-  if is_rule (okind o) then f_pr o else f_par o.
+Definition acc_parent (o : obj) : option id := f_par o.                    (* cssrule.py l.119, property.py l.380, selector.py l.186, value.py *)
 (* cssrule.py _getParentStyleSheet l.128-133: derived through the chain of parent rules.
    outer None = the recursion does not end within fuel (RecursionError) *)
 Fixpoint acc_parentStyleSheet (fuel : nat) (h : heap) (o : obj) : option (option id) :=
